@@ -5,6 +5,7 @@ it is a permutation of the iterator's (item, weight) pairs, ascending, its total
 quantiles are those of the input multiset.
 -/
 import DSProofs.Lemmas.QuantilesIter
+import DSProofs.Lemmas.SortedView
 namespace DS.Quantiles
 
 open DS.SortedView
@@ -14,21 +15,15 @@ variable {α : Type}
 /-- entries ascending by item -/
 def SortedE (lt : α → α → Bool) (v : List (α × Nat)) : Prop := v.Pairwise (fun a b => leOf lt a.1 b.1 = true)
 
-theorem merge_perm (lt : α → α → Bool) (a b : List (α × Nat)) : (SortedView.merge lt a b).Perm (a ++ b) := by
-  fun_induction SortedView.merge lt a b with
-  | case1 r => simp
-  | case2 a l => simp
-  | case3 a l b r h ih =>
-    refine (List.Perm.cons b ih).trans ?_
-    exact (List.perm_middle (a := b) (l₁ := a :: l) (l₂ := r)).symm
-  | case4 a l b r h ih => exact List.Perm.cons a ih
+theorem merge_perm (lt : α → α → Bool) (a b : List (α × Nat)) : (SortedView.merge lt a b).Perm (a ++ b) :=
+  SortedView.merge_perm lt a b
 
 theorem merge_sorted {lt : α → α → Bool} (hlt : SWO lt) (a b : List (α × Nat)) (ha : SortedE lt a) (hb : SortedE lt b) :
     SortedE lt (SortedView.merge lt a b) := by
-  fun_induction SortedView.merge lt a b with
-  | case1 r => exact hb
-  | case2 a l => exact ha
-  | case3 a l b r h ih =>
+  refine SortedView.merge_induction lt (motive := fun a b m => SortedE lt a → SortedE lt b → SortedE lt m) ?_ ?_ ?_ ?_ a b ha hb
+  · intro r _ hb; exact hb
+  · intro a l ha _; exact ha
+  · intro a l b r h ih ha hb
     -- b.1 < a.1: b goes first
     have ih' := ih ha (List.Pairwise.of_cons hb)
     refine List.Pairwise.cons ?_ ih'
@@ -44,7 +39,7 @@ theorem merge_sorted {lt : α → α → Bool} (hlt : SWO lt) (a b : List (α ×
       · exact hba
       · exact hlt.le_trans _ _ _ hba (List.rel_of_pairwise_cons ha hz)
     · exact List.rel_of_pairwise_cons hb hz
-  | case4 a l b r h ih =>
+  · intro a l b r h ih ha hb
     have ih' := ih (List.Pairwise.of_cons ha) hb
     refine List.Pairwise.cons ?_ ih'
     intro z hz
@@ -162,23 +157,23 @@ theorem selW_expectedIter (q : α → Bool) (s : Sketch α) : selW q (expectedIt
   simp only [expectedIter, selW_append, selW_map, selW_pairsLevels, wSketch, Nat.one_mul]
 
 theorem go_cumulate (lt : α → α → Bool) (x : α) (incl : Bool) : ∀ (raw : List (α × Nat)) (acc : Nat),
-    SortedView.rankNum.go lt x incl (cumulate acc raw) acc = acc + prefW (belowP lt x incl) raw := by
+    SortedView.rankGo lt x incl (cumulate acc raw) acc = acc + prefW (belowP lt x incl) raw := by
   intro raw
   induction raw with
-  | nil => intro acc; simp [cumulate, SortedView.rankNum.go, prefW]
+  | nil => intro acc; simp [cumulate, SortedView.rankGo, prefW]
   | cons e t ih =>
     intro acc
     obtain ⟨y, w⟩ := e
     cases incl with
     | true =>
-      simp only [cumulate, SortedView.rankNum.go, prefW, belowP, if_true]
+      simp only [cumulate, SortedView.rankGo, prefW, belowP, if_true]
       by_cases h : lt x y = true
       · simp [h]
       · have h' : lt x y = false := by simpa using h
         simp only [h', Bool.false_eq_true, if_false, Bool.not_false, if_true]
         rw [ih]; omega
     | false =>
-      simp only [cumulate, SortedView.rankNum.go, prefW, belowP, Bool.false_eq_true, if_false]
+      simp only [cumulate, SortedView.rankGo, prefW, belowP, Bool.false_eq_true, if_false]
       by_cases h : lt y x = true
       · simp only [h, Bool.not_true, Bool.false_eq_true, if_false, if_true]
         rw [ih]; omega
